@@ -280,7 +280,74 @@ def f66_explains(e):
     return True
 
 
-_HELPERS = {"f66_explains": f66_explains, "intval": intval, "nwords": nwords, "len": len, "abs": abs, "any": any, "all": all, "min": min, "max": max,
+def _ieee_rne(m, exp, ft):
+    """(magnitude bit pattern, sign of result - value) of m * 2^exp (m > 0) rounded to nearest-even into f32 / f64"""
+    M, emin, emax, bias, W = (24, -149, 128, 127, 32) if ft == "f32" else (53, -1074, 1024, 1023, 64)
+    top = m.bit_length() - 1 + exp
+    u = max(emin, top - (M - 1))
+    q = _rne_shift(m, u - exp)
+    lhs, rhs = (q << (u - exp), m) if u >= exp else (q, m << (exp - u))
+    c = (lhs > rhs) - (lhs < rhs)
+    while q >= (1 << M):
+        q, u = q >> 1, u + 1
+    if q >= (1 << (M - 1)) and u + M - 1 >= emax:
+        return ((2 * bias + 1) << (M - 1)), 1          # infinity
+    if q < (1 << (M - 1)):
+        return q, c                                     # subnormal (u == emin) or zero
+    return ((u + M - 1 + bias) << (M - 1)) | (q - (1 << (M - 1))), c
+
+
+def rat_to_f_model(num, den, ft):
+    """What rational Repr::to_f32 / to_f64 computes (rational/src/convert.rs: a 25/54-bit quotient rounded half-even to
+    an integer, then FloatEncoding::encode rounds again): (magnitude bits, flag) with flag in Exact / Positive / Negative."""
+    M, emax, under = (24, 128, -149 - 25) if ft == "f32" else (53, 1024, -1074 - 53)
+    sgn, n = (-1 if num < 0 else 1), abs(num)
+    name = lambda v: "Exact" if v == 0 else "Positive" if v > 0 else "Negative"
+    if n == 0:
+        return 0, "Exact"
+    shift = n.bit_length() - den.bit_length() - M
+    N, D = (n, den << shift) if shift >= 0 else (n << -shift, den)
+    inf = ((2 * (127 if ft == "f32" else 1023) + 1) << (M - 1))
+    if shift >= emax:
+        return inf, name(sgn)
+    if shift < under:
+        return 0, name(-sgn)
+    man, r = divmod(N, D)
+    if r == 0:
+        e1 = 0
+    elif 2 * r > D or (2 * r == D and man & 1):
+        man, e1 = man + 1, sgn
+    else:
+        e1 = -sgn
+    bits, c = _ieee_rne(man, shift, ft)
+    e2 = sgn * c
+    return bits, name(e2 if e2 != 0 else e1)
+
+
+def f66_rat_explains(e):
+    """the failing to_f event on a rational below the normal range is exactly the double rounding F66 describes: every
+    correctly-rounding form (to_f32 / to_f64) returned what the two-step computation of the source gives, bits AND error sign"""
+    x = e["x"]
+    if x.get("t") not in ("R", "RX"):
+        return False
+    ft = e["ft"]
+    W = 32 if ft == "f32" else 64
+    bits, flag = rat_to_f_model(intval(x["num"]), intval(x["den"]), ft)
+    seen = False
+    for o in e.get("outs", []):
+        out = o["out"]
+        if out.get("k") != "ok" or "b" not in out:
+            return False
+        if "flag" not in out:
+            continue                                     # the *_fast forms promise nothing about the last bit
+        seen = True
+        got = sum(c << (16 * i) for i, c in enumerate(out["b"])) & ((1 << (W - 1)) - 1)
+        if got != bits or out["flag"] != flag:
+            return False
+    return seen
+
+
+_HELPERS = {"f66_explains": f66_explains, "f66_rat_explains": f66_rat_explains, "intval": intval, "nwords": nwords, "len": len, "abs": abs, "any": any, "all": all, "min": min, "max": max,
             "re": re, "int": int, "str": str, "isinstance": isinstance, "dict": dict, "list": list, "set": set, "sorted": sorted}
 
 
